@@ -1,27 +1,61 @@
 package static
 
 import (
+	"verif/vp/core"
 	"verif/vp/gen"
 	"verif/vp/oracle"
 )
 
-func init() {
-	Props["C01"] = &PropDef{
-		Profile: func() gen.Profile { p := gen.DefaultProfile(); p.Name = "C01"; return p },
-		Oracle:  oracle.C01,
-		Confirm: true,
+func prof(name string, mod func(p *gen.Profile)) func() gen.Profile {
+	return func() gen.Profile {
+		p := gen.DefaultProfile()
+		p.Name = name
+		if mod != nil {
+			mod(&p)
+		}
+		return p
 	}
-	Props["C19"] = &PropDef{
-		Profile: func() gen.Profile {
-			p := gen.DefaultProfile()
-			p.Name = "C19"
-			p.Conflict = true
-			p.MinDeps = 2
-			p.MaxDeps = 6
-			p.StdPct = 30
-			return p
-		},
-		Mutate: gen.HostileArgs,
-		Oracle: oracle.C19,
+}
+
+func init() {
+	Props["C01"] = &PropDef{Profile: prof("C01", nil), Oracle: oracle.C01, Confirm: true}
+	Props["C02"] = &PropDef{Profile: prof("C02", func(p *gen.Profile) { p.EmbedPct = 45; p.MaxMethods = 5 }), Oracle: oracle.C02}
+	Props["C08s"] = &PropDef{Profile: prof("C08s", func(p *gen.Profile) { p.MaxMethods = 4 }), Oracle: oracle.C08Static}
+	Props["C09"] = &PropDef{Profile: prof("C09", func(p *gen.Profile) { p.GenericPct = 85; p.MaxIfaces = 2; p.DestOther = 35 }), Oracle: oracle.C09}
+	Props["C10"] = &PropDef{Profile: prof("C10", func(p *gen.Profile) { p.DestOther = 40; p.DestTest = 20; p.DestSame = 15 }), Oracle: oracle.C10}
+	Props["C11"] = &PropDef{Profile: prof("C11", func(p *gen.Profile) {
+		p.Conflict = true
+		p.MinDeps = 3
+		p.MaxDeps = 6
+		p.StdPct = 30
+		p.AliasPct = 35
+		p.EmbedPct = 40
+	}), Oracle: oracle.C11}
+	Props["C12"] = &PropDef{Profile: prof("C12", func(p *gen.Profile) { p.AdvNames = true; p.MaxParams = 6; p.UnnamedPct = 35; p.GenericPct = 10 }), Oracle: oracle.C12}
+	Props["C13"] = &PropDef{Profile: prof("C13", func(p *gen.Profile) { p.AdvNames = true; p.MaxParams = 5; p.UnnamedPct = 55; p.GenericPct = 8; p.MaxDepth = 4 }), Oracle: oracle.C13}
+	Props["C14"] = &PropDef{Profile: prof("C14", func(p *gen.Profile) {
+		p.Conflict = true
+		p.MinDeps = 3
+		p.MaxDeps = 6
+		p.StdPct = 35
+		p.AdvNames = true
+		p.OutFilePct = 0
+	}), Oracle: oracle.C14}
+	Props["C16"] = &PropDef{Profile: prof("C16", func(p *gen.Profile) { p.OutFilePct = 0; p.MaxParams = 6 }), Mutate: c16Mutate, Oracle: oracle.C16}
+	Props["C19"] = &PropDef{Profile: prof("C19", func(p *gen.Profile) {
+		p.Conflict = true
+		p.MinDeps = 2
+		p.MaxDeps = 6
+		p.StdPct = 30
+	}), Mutate: gen.HostileArgs, Oracle: oracle.C19}
+	Props["C20"] = &PropDef{Profile: prof("C20", func(p *gen.Profile) { p.MultiArgPct = 85; p.MaxIfaces = 4; p.OutFilePct = 0 }), Oracle: oracle.C20}
+}
+
+// C16 runs every formatter itself; goimports from a cwd outside the module is the known finding F-N.
+func c16Mutate(g *gen.G, c *core.Case) {
+	c.Cfg.Fmt = ""
+	if c.Cfg.Invoke == "foreignabs" && g.Open["F-N"] {
+		g.Excl["F-N"]++
+		c.Cfg.Invoke = "rootrel"
 	}
 }
